@@ -90,6 +90,14 @@ func classifyErr(op ssa.Value, seen map[ssa.Value]bool) exitKind {
 			return exitFailure
 		}
 		return exitMaybe
+	case *ssa.UnOp:
+		// a package-level sentinel (`var ErrX = errors.New(…)`, never reassigned) is a non-nil error
+		if x.Op == token.MUL {
+			if g, ok := x.X.(*ssa.Global); ok && sentinelError(g) {
+				return exitFailure
+			}
+		}
+		return exitMaybe
 	case *ssa.Extract:
 		// the error of an "error factory" (a repository function or local closure all of whose exits fail)
 		if call, ok := x.Tuple.(*ssa.Call); ok {
@@ -104,6 +112,67 @@ func classifyErr(op ssa.Value, seen map[ssa.Value]bool) exitKind {
 		return exitMaybe
 	}
 	return exitMaybe
+}
+
+var sentinelMemo = map[*ssa.Global]bool{}
+
+// sentinelError: g is a package-level error variable that is assigned exactly once, in its package's initialiser, a
+// value that is a failure construct (an error constructor, or a wrap of one).
+func sentinelError(g *ssa.Global) bool {
+	if v, ok := sentinelMemo[g]; ok {
+		return v
+	}
+	sentinelMemo[g] = false
+	if g.Pkg == nil || !types.Identical(g.Type().(*types.Pointer).Elem(), errorType) {
+		return false
+	}
+	stores, good := 0, true
+	for _, m := range g.Pkg.Members {
+		fn, ok := m.(*ssa.Function)
+		if !ok {
+			continue
+		}
+		var visit func(f *ssa.Function)
+		visit = func(f *ssa.Function) {
+			for _, b := range f.Blocks {
+				for _, in := range b.Instrs {
+					if st, ok := in.(*ssa.Store); ok && st.Addr == ssa.Value(g) {
+						stores++
+						if !strings.HasPrefix(f.Name(), "init") || classifyErr(st.Val, map[ssa.Value]bool{}) != exitFailure {
+							good = false
+						}
+					}
+				}
+			}
+			for _, a := range f.AnonFuncs {
+				visit(a)
+			}
+		}
+		visit(fn)
+	}
+	// methods of the package's types may assign it too
+	if good && stores == 1 {
+		for _, m := range g.Pkg.Members {
+			if t, ok := m.(*ssa.Type); ok {
+				for _, tt := range []types.Type{t.Type(), types.NewPointer(t.Type())} {
+					ms := g.Pkg.Prog.MethodSets.MethodSet(tt)
+					for i := 0; i < ms.Len(); i++ {
+						if f := g.Pkg.Prog.MethodValue(ms.At(i)); f != nil && f.Pkg == g.Pkg {
+							for _, b := range f.Blocks {
+								for _, in := range b.Instrs {
+									if st, ok := in.(*ssa.Store); ok && st.Addr == ssa.Value(g) {
+										good = false
+									}
+								}
+							}
+						}
+					}
+				}
+			}
+		}
+	}
+	sentinelMemo[g] = good && stores == 1
+	return sentinelMemo[g]
 }
 
 // resolveCallee: the repository function a call invokes: a static callee, or a closure value reached through a
